@@ -143,6 +143,7 @@ func main() {
 		mc.Fatal("%v", err)
 	}
 	payload, sig := genuine.SerializedUefiGolden, genuine.Signature
+	genuineBin, _ := proto.Marshal(genuine)
 	signed := &epb.VMGoldenMeasurement{}
 	proto.Unmarshal(payload, signed)
 	withCert := func(cert []byte) []byte {
@@ -357,6 +358,21 @@ func main() {
 		}},
 		{"SevValidate(extras)", true, false, func(v variant, rs rootSet, t time.Time) (bool, bool, string) {
 			return res(gcetcbendorsement.SevValidate(ctx, att.Snp(m1, v.bin), &gcetcbendorsement.SevValidateOptions{RootsOfTrust: rs.pool(), Now: t, BasePolicy: base64policy()}))
+		}},
+		// Two sources at once: the caller hands the endorsement over (it overrides what the attestation
+		// carries, and the policy is derived from it) while the attestation's certificate table, or the
+		// getter, holds the genuine one. What is accepted must still be what the caller handed over.
+		{"SevValidate(opts.Endorsement; genuine in the certificate table)", true, false, func(v variant, rs rootSet, t time.Time) (bool, bool, string) {
+			if v.end == nil {
+				return false, false, "" // nothing handed over: the other source would legitimately decide
+			}
+			return res(gcetcbendorsement.SevValidate(ctx, att.Snp(m1, genuineBin), &gcetcbendorsement.SevValidateOptions{Endorsement: v.end, RootsOfTrust: rs.pool(), Now: t, BasePolicy: base64policy()}))
+		}},
+		{"SevValidate(opts.Endorsement; genuine behind the getter)", true, false, func(v variant, rs rootSet, t time.Time) (bool, bool, string) {
+			if v.end == nil {
+				return false, false, "" // nothing handed over: the other source would legitimately decide
+			}
+			return res(gcetcbendorsement.SevValidate(ctx, att.Snp(m1, nil), &gcetcbendorsement.SevValidateOptions{Endorsement: v.end, RootsOfTrust: rs.pool(), Now: t, BasePolicy: base64policy(), Getter: &getter{genuineBin}}))
 		}},
 		{"SevValidate(getter)", true, false, func(v variant, rs rootSet, t time.Time) (bool, bool, string) {
 			return res(gcetcbendorsement.SevValidate(ctx, att.Snp(m1, nil), &gcetcbendorsement.SevValidateOptions{RootsOfTrust: rs.pool(), Now: t, BasePolicy: base64policy(), Getter: &getter{v.bin}}))
